@@ -41,6 +41,7 @@ func TestVerif_C36(t *testing.T) {
 		workers := rng.Range(1, 3)
 		quiesce := rng.Bool()
 		reloadInterval := rng.Bool()
+		reloadDuringStop := rng.Bool() // config reloads keep being delivered while Stop runs
 		// Fixed strata (case index mod 6), so that every tier has each kind of shutdown:
 		//  0 decided traces whose spans still wait in an upstream batch
 		//  1 decided traces already sent on
@@ -302,6 +303,38 @@ func TestVerif_C36(t *testing.T) {
 			cl.DropIdleConnections()
 		}
 		fmt.Fprintf(os.Stderr, "VERIF C36 seed=%d case=%d: requesting shutdown\n", run.Seed(), ci)
+		// A config reload can be delivered at any time (watcher tick, message from a
+		// peer, a Reload already in progress), also while or after the components stop.
+		// deliverReload runs the registered reload callbacks like a reload does and
+		// reports a panic of the reloading goroutine instead of dying with it.
+		deliverReload := func() (panicked string) {
+			defer func() {
+				if r := recover(); r != nil {
+					panicked = fmt.Sprint(r)
+				}
+			}()
+			cl.ReloadConfig(0, func(cfg *config.MockConfig) { cfg.CfgHash = fmt.Sprintf("verif-%d", time.Now().UnixNano()) })
+			return ""
+		}
+		reloadPanic := ""
+		reloadsDuringStop := 0
+		reloaderDone := make(chan struct{})
+		go func() {
+			defer close(reloaderDone)
+			if !reloadDuringStop {
+				return
+			}
+			for reloadPanic == "" {
+				select {
+				case <-stopReturned:
+					return
+				default:
+				}
+				reloadPanic = deliverReload()
+				reloadsDuringStop++
+				time.Sleep(200 * time.Microsecond)
+			}
+		}()
 		go func() {
 			err, p := cl.StopNode(0)
 			srMu.Lock()
@@ -414,6 +447,18 @@ func TestVerif_C36(t *testing.T) {
 
 		// ---- after Stop returned
 		post := cl.Snapshot("trace_accepted", "trace_send_kept", "trace_send_dropped", "span_processed", "libhoney_upstream_queued_items", "libhoney_upstream_messages_sent", "libhoney_upstream_response_20x")
+		// (a0) a reload delivered while the node was stopping, or now that it has stopped,
+		// must not blow up
+		<-reloaderDone
+		if reloadPanic != "" {
+			run.Violation("C36/stop/reload-delivered-during-shutdown-panicked", "a config reload callback panicked while graceful shutdown was in progress",
+				map[string]any{"panic": reloadPanic, "reloads_delivered": reloadsDuringStop})
+		}
+		if p := deliverReload(); p != "" {
+			run.Violation("C36/after-stop/reload-delivered-after-shutdown-panicked", "a config reload callback panicked after startstop.Stop had returned",
+				map[string]any{"panic": p})
+		}
+		run.Count("reloads_delivered_during_stop", int64(reloadsDuringStop))
 		// (a) it no longer accepts data
 		probe := e2Span{ID: fmt.Sprintf("c36-%d-afterstop", ci), TraceID: fmt.Sprintf("c36-%d-afterstop", ci), Time: now}
 		for _, peerPort := range []bool{false, true} {
